@@ -46,10 +46,21 @@ Canon(nm) == CASE nm \in {"FlateDecode", "Fl"} -> "Fl" [] nm \in {"LZWDecode", "
 PredValOf(p) == IF p.t = "dict" /\ "Predictor" \in DOMAIN p.v THEN Resolve1(p.v["Predictor"]).v ELSE 0
 PredCall(pv) == IF pv = 2 THEN <<"tiff">> ELSE IF pv >= 10 THEN <<"png">> ELSE <<>>
 
+\* per-stage parameters of the codecs themselves, read afresh for every stage:
+\* LZWDecode: early_change = 1; if params and "EarlyChange" in params: early_change = int_value(...)   (0 / not 0)
+IntParm(p, k, default) == IF p.t = "dict" /\ k \in DOMAIN p.v THEN Resolve1(p.v[k]).v ELSE default
+ECOf(p) == IF IntParm(p, "EarlyChange", 1) = 0 THEN 0 ELSE 1
+\* CCITTFaxDecode: only /K -1 (Group 4) is decoded, anything else (or no parameters at all) is a PDFValueError
+KOf(p) == IntParm(p, "K", 0)
+\* the call as the observation wrapper names it: the codec plus the parameter it was given
+CallName(c, p) == CASE c = "LZW" -> IF ECOf(p) = 0 THEN "LZW0" ELSE "LZW"
+                    [] c = "CCF" -> IF KOf(p) = -1 THEN "CCF" ELSE "CCF?"
+                    [] OTHER -> c
+
 \* the decoder calls a stream dictionary leads to, in order (supported filters and predictors only)
 RECURSIVE CallsOf(_)
 CodecCall(c) == IF c = "pass" THEN <<>> ELSE <<c>>
 CallsOf(pairs) == IF pairs = <<>> THEN <<>>
-                  ELSE CodecCall(Canon(pairs[1][1].v)) \o PredCall(PredValOf(pairs[1][2])) \o CallsOf(Tail(pairs))
+                  ELSE CodecCall(CallName(Canon(pairs[1][1].v), pairs[1][2])) \o PredCall(PredValOf(pairs[1][2])) \o CallsOf(Tail(pairs))
 ExpectedCalls(attrs) == CallsOf(Normalise(TopFilters(attrs), TopParams(attrs)))
 =============================================================================
